@@ -100,6 +100,11 @@ def generate(rng, tier):
     if rng.chance(50):
         order = sorted(order, key=lambda i: probes[i].count("/"))
     cli = {"config": {}, "config_path": None, "edition": None, "style_edition": None}
+    # (drawn before the command-line options so that the alias/successor exclusion sees these files too)
+    if rng.chance(15):
+        add_config("cfgs/explicit.toml")
+        add_config("cfgs/dir/rustfmt.toml")
+        cli["config_path"] = rng.choice(["cfgs/explicit.toml", "cfgs/dir"])
     if rng.chance(45):
         ex = set()
         for a, (succ, _) in gen_config.ALIASES.items():
@@ -120,10 +125,6 @@ def generate(rng, tier):
         cli["edition"] = rng.choice(["2015", "2018", "2021", "2024"])
     if rng.chance(15):
         cli["style_edition"] = rng.choice(["2015", "2018", "2021", "2024"])
-    if rng.chance(15):
-        add_config("cfgs/explicit.toml")
-        add_config("cfgs/dir/rustfmt.toml")
-        cli["config_path"] = rng.choice(["cfgs/explicit.toml", "cfgs/dir"])
     # the relative precedence of `--config edition=..` and `--edition` is not part of the property
     if "edition" in cli["config"]:
         cli["edition"] = None
